@@ -7,7 +7,7 @@ META = {
     "engine": "qsym-translator",
     "technique": "Coq reflection proof per outcome branch (exact projector semantics, vm_compute + soundness theorem) of obligations regenerated from /repo by symbolic execution of every measurement-based rule",
     "design_ref": "DESIGN.md §3 C13",
-    "text": "Every registered rule (found by scanning the whole catalogue of C10) whose queue contains PauliMeasure / MidMeasure operations is expanded into its 2^k outcome branches: measurement j becomes the exact projector on outcome b_j (plus the reset flip), each classically controlled correction is included iff PennyLane's own MeasurementValue predicate evaluates to true on b. For every branch Coq proves (kernel-checked) that the branch circuit equals U (x) |phi_b> on all checked inputs (auxiliary wires in |0>, documented domain for the uncomputation rules), with the SAME target unitary U = the operator's matrix on every branch and an explicit auxiliary state phi_b; a second obligation proves sum_b |phi_b|^2 = 1.",
+    "text": "Every registered rule (found by scanning the whole catalogue of C10) whose queue contains PauliMeasure / MidMeasure operations is expanded into its 2^k outcome branches: measurement j becomes the exact projector on outcome b_j (plus the reset flip), each classically controlled correction is included iff PennyLane's own MeasurementValue predicate evaluates to true on b. For every branch Coq proves (kernel-checked) that the branch circuit equals U (x) |phi_b> on all checked inputs (auxiliary wires in |0>, documented domain for the uncomputation rules), with the SAME target unitary U = the operator's matrix on every branch and ONE auxiliary state a shared by all branches (phi_b = c_b * a, a = auxiliary ray of the first branch of non-zero weight, only the scalar c_b depends on b), so a work wire handed back in a branch-dependent state (e.g. |+> vs |->) fails the branch obligation; a second obligation proves sum_b |phi_b|^2 = 1.",
     "note": "Trusted: Coq kernel + stdlib real axioms (through Reals/Coquelicot in the soundness theorem); translator (symbolic matrices of the emitted gates, spot-checked numerically; projectors of Pauli words built in the harness from the recorded pauli_word); the set of rules covered is what the catalogue of C10 reaches (listed in the evidence); postselecting rules are not supported (none today).",
     "assumptions": ["projective measurement semantics: outcome b of a Pauli word W applies (I + (-1)^b W)/2"],
     "trusted": ["translator harness/qsym.py, qx.py, qrules.py, impl/c13_impl.py"],
@@ -37,10 +37,17 @@ def run(ctx):
                           "weights": next((i.get("weights") for i in items if i["label"] == o["label"] and i["rule"] == o["rule"]), None)},
                           what=f"branch weights of rule {o['rule']} for {o['label']} do not sum to one")
         else:
+            it = next((i for i in items if i["label"] == o["label"] and i["rule"] == o["rule"]), {})
+            aux_note = ("" if o.get("aux_same", True) else
+                        "; the auxiliary-wire state extracted on this branch is NOT the state of the reference branch "
+                        "(auxiliary wires must end in one known state, the same on every outcome branch)")
             ctx.violation(f"branch:{o['label']}:{o['rule']}:{''.join(map(str, o['outcome']))}",
                           {"operator": o["label"], "rule": o["rule"], "measurement_outcomes": o["outcome"],
-                           "meaning": "on this outcome branch the circuit does not act as (operator matrix) (x) (fixed auxiliary state)"},
-                          what=f"rule {o['rule']} for {o['label']} fails on measurement outcomes {o['outcome']}")
+                           "aux_states_per_branch": it.get("aux_states"),
+                           "meaning": "on this outcome branch the circuit does not act as c_b * (operator matrix) (x) (ONE auxiliary state a, "
+                                      "the same ray on every branch)" + aux_note},
+                          what=f"rule {o['rule']} for {o['label']} fails on measurement outcomes {o['outcome']}"
+                               + (" (auxiliary wire left in a branch-dependent state)" if aux_note else ""))
     base_p = VERIF / "harness" / "expected_c13.json"
     okset = sorted({(i["label"], i["rule"]) for i in items if i["status"] == "ok"})
     if os.environ.get("VERIF_WRITE_BASELINE") and not failed:
